@@ -4,6 +4,7 @@ package main
 
 import (
 	"fmt"
+	"go/ast"
 	"go/constant"
 	"go/token"
 	"go/types"
@@ -30,7 +31,10 @@ type specEnv struct {
 	binders  []*Term
 	depth    int
 	wit      map[string]*SExpr
+	witParam map[string]string
 	presite  string
+	fns      map[string]func(arg *Term) *Term
+	fnRes    map[string]types.Type
 }
 
 func (f *Frame) specEnv(cur, old *State) *specEnv {
@@ -144,6 +148,8 @@ func (se *specEnv) eval(e *SExpr) SVal {
 		return se.call(e)
 	case SQuant:
 		return se.quant(e)
+	case SExistsFn:
+		return se.existsFn(e)
 	}
 	sfail("cannot evaluate %s", e)
 	return SVal{}
@@ -211,6 +217,10 @@ func (se *specEnv) ident(name string) SVal {
 			}
 		}
 	}
+	// source-level locals through debug references
+	if v, ok := se.debugRef(name); ok {
+		return v
+	}
 	// phi by name anywhere (value at its definition)
 	for _, b := range f.fn.Blocks {
 		for _, in := range b.Instrs {
@@ -231,6 +241,51 @@ func (se *specEnv) ident(name string) SVal {
 	}
 	sfail("unknown identifier %q in contract of %s", name, funcKey(f.fn))
 	return SVal{}
+}
+
+// debugRef resolves a local variable name through go/ssa DebugRef instructions. All references that
+// have a value in the current activation must agree, otherwise the name is ambiguous at this point.
+func (se *specEnv) debugRef(name string) (SVal, bool) {
+	f := se.f
+	var found *ssa.DebugRef
+	var val Val
+	for _, b := range f.fn.Blocks {
+		for _, in := range b.Instrs {
+			dr, ok := in.(*ssa.DebugRef)
+			if !ok {
+				continue
+			}
+			id, ok := dr.Expr.(*ast.Ident)
+			if !ok || id.Name != name {
+				continue
+			}
+			v, ok := f.vals[dr.X]
+			if !ok {
+				if c, isConst := dr.X.(*ssa.Const); isConst {
+					v = f.constVal(c)
+				} else {
+					continue
+				}
+			}
+			if found != nil && dr.X != found.X {
+				if t1, ok1 := v.(*Term); ok1 {
+					if t2, ok2 := val.(*Term); ok2 && termEq(t1, t2) {
+						continue
+					}
+				}
+				sfail("local %q is ambiguous here (several SSA values); name a loop-carried variable or parameter instead", name)
+			}
+			found, val = dr, v
+		}
+	}
+	if found == nil {
+		return SVal{}, false
+	}
+	if found.IsAddr {
+		l := f.asLoc(val, found.X.Type())
+		return SVal{f.load(se.cur, l), f.subst(derefT(found.X.Type()))}, true
+	}
+	return SVal{val, f.subst(found.X.Type())}, true
 }
 
 func (se *specEnv) pkg() *types.Package {
@@ -399,7 +454,9 @@ func (se *specEnv) field(x SVal, name string, e *SExpr) SVal {
 			sfail("no field %s in %s (%s)", name, p.Elem(), e)
 		}
 		ref := f.asTerm(x.V)
-		return SVal{f.readHeapField(se.cur, si, i, ref), st.Field(i).Type()}
+		fv := f.readHeapField(se.cur, si, i, ref)
+		se.refInv(fv, st.Field(i).Type())
+		return SVal{fv, st.Field(i).Type()}
 	}
 	if st, ok := t.Underlying().(*types.Struct); ok {
 		si := f.structInfo(t)
@@ -411,6 +468,27 @@ func (se *specEnv) field(x SVal, name string, e *SExpr) SVal {
 	}
 	sfail("field access on %s in %s", t, e)
 	return SVal{}
+}
+
+// refInv: a reference read from a state is allocated in that state (model invariant).
+func (se *specEnv) refInv(v *Term, t types.Type) {
+	if v.size > 14 {
+		return
+	}
+	for _, b := range se.binders {
+		if containsAtom(v, b.Op) {
+			return // mentions a bound variable
+		}
+	}
+	for _, sv := range se.vars {
+		if t, ok := sv.V.(*Term); ok && t.IsAtom() && strings.Contains(t.Op, "!q") && containsAtom(v, t.Op) {
+			return
+		}
+	}
+	switch se.f.subst(t).Underlying().(type) {
+	case *types.Pointer, *types.Map, *types.Slice:
+		se.f.assumeWf(se.cur, v, t)
+	}
 }
 
 func (se *specEnv) index(x, i SVal, e *SExpr) SVal {
@@ -427,7 +505,7 @@ func (se *specEnv) index(x, i SVal, e *SExpr) SVal {
 	case *types.Slice:
 		s := f.asTerm(x.V)
 		es := f.sortOf(u.Elem())
-		E := f.ctx.comp(se.cur, compE(es), ArrS(SInt, ArrS(SInt, es)))
+		E := f.ctx.comp(se.cur, f.eName(u.Elem()), ArrS(SInt, ArrS(SInt, es)))
 		return SVal{Select(Select(E, SlcBase(s)), Slot(SlcOff(s), f.asTerm(i.V))), u.Elem()}
 	case *types.Map:
 		val, _ := f.mapRead(se.cur, u, f.asTerm(x.V), se.coerce(i, u.Key()))
@@ -458,6 +536,7 @@ func (se *specEnv) call(e *SExpr) SVal {
 		v := f.asTerm(x.V)
 		switch u := t.Underlying().(type) {
 		case *types.Slice:
+			f.assumeSlcShape(v)
 			if e.Name == "len" {
 				return SVal{SlcLen(v), ti}
 			}
@@ -465,8 +544,8 @@ func (se *specEnv) call(e *SExpr) SVal {
 		case *types.Basic:
 			return SVal{f.ctx.uf("strlen", SInt, v), ti}
 		case *types.Map:
-			ks, vs := f.sortOf(u.Key()), f.sortOf(u.Elem())
-			D := f.ctx.comp(se.cur, compMD(ks, vs), ArrS(SInt, ArrS(ks, SBool)))
+			ks := f.sortOf(u.Key())
+			D := f.ctx.comp(se.cur, f.mdName(u.Key(), u.Elem()), ArrS(SInt, ArrS(ks, SBool)))
 			c := f.ctx.uf("card!"+trimSort(ks), SInt, Select(D, v))
 			return SVal{Ite(Eq(v, IntLit(0)), IntLit(0), c), ti}
 		case *types.Array:
@@ -542,6 +621,12 @@ func (se *specEnv) call(e *SExpr) SVal {
 	case "eqfold":
 		a, b := se.term(e.Args[0]), se.term(e.Args[1])
 		return SVal{f.ctx.uf("eqfold", SBool, a, b), tb}
+	}
+	if fn, ok := se.fns[e.Name]; ok {
+		if len(e.Args) != 1 {
+			sfail("ghost function %s takes one argument", e.Name)
+		}
+		return SVal{fn(se.term(e.Args[0])), se.fnRes[e.Name]}
 	}
 	// spec functions
 	sf := se.lookupSpecFunc(e.Name)
@@ -760,6 +845,80 @@ func (se *specEnv) quant(e *SExpr) SVal {
 	}
 	body := n.evalKeepPol(e.Args[0])
 	return SVal{Exists(bound, body), tb}
+}
+
+// existsFn: "there is a function f: T -> R such that body". Assumed occurrences introduce a skolem
+// function; goal occurrences are proved for a witness function (explicit, or a skolem in scope).
+func (se *specEnv) existsFn(e *SExpr) SVal {
+	f := se.f
+	tb := types.Typ[types.Bool]
+	at, rt := se.resolveType(e.Binders[0].Type), se.resolveType(e.Binders[1].Type)
+	as, rs := f.sortOf(at), f.sortOf(rt)
+	bind := func(n *specEnv, fn func(*Term) *Term) {
+		nf := map[string]func(*Term) *Term{}
+		nr := map[string]types.Type{}
+		for k, v := range se.fns {
+			nf[k] = v
+			nr[k] = se.fnRes[k]
+		}
+		nf[e.Name] = fn
+		nr[e.Name] = rt
+		n.fns, n.fnRes = nf, nr
+	}
+	switch {
+	case se.pol > 0:
+		var sorts []Sort
+		for _, ub := range se.binders {
+			sorts = append(sorts, ub.S)
+		}
+		sorts = append(sorts, as)
+		quantCounter++
+		name := f.ctx.declFun(fmt.Sprintf("sk!%s!%s!%d", e.Name, se.site, quantCounter), sorts, rs)
+		if len(se.binders) == 0 {
+			f.ctx.skolems[e.Name] = append(f.ctx.skolems[e.Name], &skolemFn{name: name, sorts: []Sort{as}, res: rs, site: se.site})
+		}
+		n := se.fork()
+		outer := append([]*Term{}, se.binders...)
+		bind(n, func(a *Term) *Term { return App(name, rs, append(append([]*Term{}, outer...), a)...) })
+		return SVal{n.evalKeepPol(e.Args[0]), tb}
+	case se.pol < 0:
+		var disj []*Term
+		if we, ok := se.wit[e.Name]; ok {
+			pname := se.witParam[e.Name]
+			if pname == "" {
+				sfail("witness for ghost function %s needs a parameter: witness %s(x) := ...", e.Name, e.Name)
+			}
+			n := se.fork()
+			outerSe := se
+			bind(n, func(a *Term) *Term {
+				w := outerSe.fork()
+				w.vars[pname] = SVal{a, at}
+				w.pol = 0
+				return w.term(we)
+			})
+			disj = append(disj, n.evalKeepPol(e.Args[0]))
+		} else {
+			sks := f.ctx.skolems[e.Name]
+			cnt := 0
+			for i := len(sks) - 1; i >= 0 && cnt < 4; i-- {
+				sk := sks[i]
+				if len(sk.sorts) != 1 || sk.sorts[0] != as || sk.res != rs {
+					continue
+				}
+				cnt++
+				n := se.fork()
+				skn := sk.name
+				bind(n, func(a *Term) *Term { return App(skn, rs, a) })
+				disj = append(disj, n.evalKeepPol(e.Args[0]))
+			}
+		}
+		if len(disj) == 0 {
+			sfail("no witness available for ghost function %s (add: witness %s(x) := ...)", e.Name, e.Name)
+		}
+		return SVal{Or(disj...), tb}
+	}
+	sfail("existsfn %s under an equivalence is not supported", e.Name)
+	return SVal{}
 }
 
 func (se *specEnv) evalKeepPol(e *SExpr) *Term {
